@@ -351,7 +351,7 @@ def st_text(draw):
 H5KEYS_EXCLUDED = {("experiment", "date"), ("experiment", "time"),
                    ("experiment", "event count")}
 TOOLS = ["export", "export_f", "export_mod", "compress", "repack", "condense", "split",
-         "join", "join_meta"]
+         "join", "join_meta", "export_again"]
 
 
 @st.composite
@@ -1046,6 +1046,13 @@ def _mask(bits, n):
     return m
 
 
+def _meta_snapshot(cfg):
+    """repr of every metadata entry (experiment ... user) of a configuration"""
+    return {f"[{sec}] {k}": repr(np.asarray(v).tolist()) + type(v).__name__
+            for sec in sorted(cfg.keys()) if sec in lm.FILE_SECTIONS or sec == "user"
+            for k, v in sorted(dict(cfg[sec]).items())}
+
+
 def _run_h5(spec, rec, d):
     src = spec["src"]
     rec.cls(f"h5:{src}")
@@ -1216,7 +1223,7 @@ def _run_h5(spec, rec, d):
                 cli.repack(path_in=str(cur), path_out=str(out))
             elif tool == "condense":
                 cli.condense(path_in=str(cur), path_out=str(out))
-            elif tool in ("export", "export_f", "export_mod"):
+            elif tname == "export":
                 with dclab.new_dataset(cur) as ds:
                     if tool == "export_f":
                         ds.filter.manual[:] = _mask(spec["mask"], len(ds))
@@ -1232,6 +1239,23 @@ def _run_h5(spec, rec, d):
                         exp.user["added:later"] = 2.5
                         ds.config["setup"]["chip region"] = "ReserVoir"
                         exp.known[("setup", "chip region")] = ("L", "reservoir")
+                    if tool == "export_again":
+                        # an earlier filtered export of the same open dataset must
+                        # not leak into what the next (plain) export carries over
+                        ds.filter.manual[:] = _mask(spec["mask"], len(ds))
+                        ds.apply_filter()
+                        before = _meta_snapshot(ds.config)
+                        ds.export.hdf5(d / f"side{ti}.rtdc", features=["deform"],
+                                       filtered=True)
+                        after = _meta_snapshot(ds.config)
+                        rec.check(before == after, "h5/source-after-export/changed",
+                                  lambda: "a filtered export changed the metadata of the "
+                                          "open source dataset: " + ", ".join(
+                                      f"{k}: {before.get(k, '<absent>')} -> "
+                                      f"{after.get(k, '<absent>')}"
+                                      for k in sorted(set(before) | set(after))
+                                      if before.get(k) != after.get(k)))
+                        exp.compare(rec, ds.config, "source-after-export")
                     ds.export.hdf5(out, features=["deform"],
                                    filtered=(tool == "export_f"))
             elif tool == "split":
